@@ -26,7 +26,7 @@ Definition rotate {A} (k : Z) (v : list A) : list A := skipn (Z.to_nat k) v ++ f
 Theorem rb_select_rotation v : v <> [] ->
   let n := lenZ v in let mn := argmin v in let mx := argmax v in
   rb_select v = firstn (Z.to_nat ((mx - mn) mod n + 1)) (rotate mn v).
-Proof. intros Hv. cbv zeta. unfold rb_select, rotate.
+Proof. intros Hv. cbv zeta. unfold rb_select, rb_select_off, rotate.
   pose proof (argmin_range v Hv) as Hmn. pose proof (argmax_range v Hv) as Hmx.
   set (n := lenZ v) in *. set (mn := argmin v) in *. set (mx := argmax v) in *.
   assert (Hlen : length v = Z.to_nat n) by (unfold n, lenZ; lia).
